@@ -22,6 +22,8 @@ where
     /// a non-missing value, distinct for distinct i (as far as the type allows)
     fn val(i: usize) -> Self;
     fn missing(i: usize) -> Self;
+    /// non-missing values at the edges of the type (infinities, extremes, integers beyond 2^24 / 2^53)
+    fn special(j: usize) -> Self;
     /// missing-ness read off the representation, independent of the crate
     fn raw_missing(&self) -> bool;
     /// bits of a value handed out as NotNan, read as the underlying type
@@ -37,8 +39,13 @@ impl Miss for f64 {
     fn val(i: usize) -> Self {
         (i as f64) * 0.5 - 7.25
     }
+    fn special(j: usize) -> Self {
+        [f64::INFINITY, f64::NEG_INFINITY, f64::MAX, -f64::MAX, f64::MIN_POSITIVE, -1.5e-300, 5e-324, 1e300][j % 8]
+    }
     fn missing(i: usize) -> Self {
-        f64::from_bits(0x7ff8_0000_0000_0000 | (i as u64 + 1) | if i % 2 == 1 { 1 << 63 } else { 0 })
+        // quiet and signaling NaNs, both signs, distinct payloads
+        let quiet = if i % 3 == 2 { 0 } else { 0x0008_0000_0000_0000u64 };
+        f64::from_bits(0x7ff0_0000_0000_0000 | quiet | (i as u64 + 1) | if i % 2 == 1 { 1 << 63 } else { 0 })
     }
     fn raw_missing(&self) -> bool {
         let b = self.to_bits();
@@ -50,8 +57,12 @@ impl Miss for f32 {
     fn val(i: usize) -> Self {
         (i as f32) * 0.5 - 7.25
     }
+    fn special(j: usize) -> Self {
+        [f32::INFINITY, f32::NEG_INFINITY, f32::MAX, -f32::MAX, f32::MIN_POSITIVE, -1.5e-30, 1e-45, 1e30][j % 8]
+    }
     fn missing(i: usize) -> Self {
-        f32::from_bits(0x7fc0_0000 | ((i as u32 + 1) & 0xffff) | if i % 2 == 1 { 1 << 31 } else { 0 })
+        let quiet = if i % 3 == 2 { 0 } else { 0x0040_0000u32 };
+        f32::from_bits(0x7f80_0000 | quiet | ((i as u32 + 1) & 0xffff) | if i % 2 == 1 { 1 << 31 } else { 0 })
     }
     fn raw_missing(&self) -> bool {
         let b = self.to_bits();
@@ -67,6 +78,16 @@ macro_rules! miss_opt_int {
                 Some(((i as i128 * 7 - 20) as u128 % ($t::MAX as u128 - 3)) as $t)
             }
             fn missing(_i: usize) -> Self { None }
+            fn special(j: usize) -> Self {
+                let big: i128 = [16_777_217, 16_777_220, 16_777_219, (1i128 << 40) + 1, (1i128 << 52) - 1, (1i128 << 53) + 1][j % 6];
+                let v: i128 = match j % 5 {
+                    0 => $t::MAX as i128,
+                    1 => $t::MIN as i128,
+                    2 => ($t::MAX as i128) - 1,
+                    _ => if big <= $t::MAX as i128 { if j % 2 == 0 || ($t::MIN as i128) == 0 { big } else { -big } } else { ($t::MAX as i128) / 3 },
+                };
+                Some(v as $t)
+            }
             fn raw_missing(&self) -> bool { matches!(self, None) }
         }
     )*};
@@ -76,6 +97,9 @@ impl Miss for Option<N64> {
     const IS_FLOAT: bool = false;
     fn val(i: usize) -> Self {
         Some(n64((i as f64) * 0.25 - 3.0))
+    }
+    fn special(j: usize) -> Self {
+        Some(n64(<f64 as Miss>::special(j)))
     }
     fn missing(_i: usize) -> Self {
         None
@@ -88,6 +112,9 @@ impl Miss for Option<N32> {
     const IS_FLOAT: bool = false;
     fn val(i: usize) -> Self {
         Some(N32::new((i as f32) * 0.25 - 3.0))
+    }
+    fn special(j: usize) -> Self {
+        Some(N32::new(<f32 as Miss>::special(j)))
     }
     fn missing(_i: usize) -> Self {
         None
@@ -381,6 +408,15 @@ where
             }
         }
         _ => {}
+    }
+    // a third of the cases carry values at the edges of the type (infinities, extremes, integers that are not
+    // exactly representable in f32 / f64)
+    if rng.chance(0.33) {
+        for i in 0..total {
+            if !data[i].raw_missing() && rng.chance(0.4) {
+                data[i] = T::special(rng.below(48));
+            }
+        }
     }
     let layout = if rng.chance(0.15) { Layout::canonical(nd) } else { Layout::random(nd, rng) };
     NCase { shape, data, axis, layout }
@@ -1103,7 +1139,8 @@ where
                     let got = &out[IxDyn(&unravel(li, &rem))];
                     let ok = match ex {
                         Ok(None) => got.raw_missing(),
-                        Ok(Some(w)) => !got.raw_missing() && T::nn_bits(&nn_of(got)) == T::nn_bits(w),
+                        // compared through the underlying representation (an interpolation of +inf and -inf is a NaN on both sides)
+                        Ok(Some(w)) => got.bits() == T::nn_bits(w),
                         Err(_) => true, // plain routine itself fails on this lane (F7-type input): not comparable
                     };
                     if !ok {
